@@ -73,6 +73,22 @@ def induction_rule(ctx, rid):
         rets = [s for s in ast.walk(m.node) if isinstance(s, ast.Return) and not (isinstance(s.value, ast.Attribute) and norm(s.value) == "np.inf")]
         need(len(rets) == 1, "idiom changed: %s.%s returns" % (cls.name, name))
         return m, rets[0].value
+    # the 'no data yet' guard of a derived quantity holds for count == 0 only: for every count >= 1 the formula is returned
+    from ..util import IntEval
+    for pname_ in ("var", "std", "err"):
+        pm_ = rs.methods.get(pname_)
+        need(pm_ is not None, "anchor lost: RunningStatistics.%s" % pname_)
+        for st_ in walk_shallow(pm_.node):
+            if isinstance(st_, ast.If) and any(isinstance(b_, ast.Return) and norm(b_.value) in ("np.inf", "numpy.inf", "float('inf')", "math.inf") for b_ in st_.body):
+                try:
+                    vals_ = {c_: bool(IntEval({"self.count": c_}).ev(st_.test, {})) for c_ in (0, 1, 2, 3, 7)}
+                except AnalysisError as ex_:
+                    raise AnalysisError("RunningStatistics.%s: guard `%s` cannot be evaluated (%s)" % (pname_, norm(st_.test), ex_))
+                if vals_ == {0: True, 1: False, 2: False, 3: False, 7: False}:
+                    rr.ok("%s: `%s` answers inf for an empty accumulator only" % (pname_, norm(st_.test)))
+                else:
+                    rr.bad(ctx.finding(rid, pm_, st_.test, "RunningStatistics.%s returns inf when `%s`, which holds for count in %s: for those sample sizes the %s of the sample is not reported" % (
+                        pname_, norm(st_.test), sorted(c_ for c_, v_ in vals_.items() if v_), pname_), construct="empty-guard " + pname_), "%s guard" % pname_)
     m, e = prop_expr(rs, "var")
     ob(rid, m, "var = M2 / count (population variance)", lambda: pev(e, {"self.M2": V("M2"), "self.count": n}) == V("M2") / n)
     m, e = prop_expr(rs, "std")
